@@ -338,3 +338,19 @@ Theorem v1_move_refuted :
   /\ t_map (get_task s 1) = [(1, 0)]
   /\ w_err s = None.
 Proof. vm_compute. repeat split. Qed.
+
+(** A second witness: the operation is NOT registered anywhere when it moves (its partial-progress event
+    was delivered under the v2 task 0), it is then polled under the v1 task 1 — which registers it there
+    but keeps the stale v2 [CabiTask] — and dropped: [unregister_waker] goes through the stale v2 task, so
+    task 1's registration survives the operation. *)
+Theorem v2_to_v1_move_after_delivery_refuted :
+  let c := mkWcfg true false [KSt] in
+  let tr := [APoll 0 0 (Some 0); AHost 0 1; ADeliver 0 None; APoll 1 0 None; ADrop 1 0 None] in
+  let s := final c tr in
+  valid_trace c tr = false
+  /\ valid_trace c [APoll 0 0 (Some 0); AHost 0 1; ADeliver 0 None] = true
+  /\ in_some_map (final c [APoll 0 0 (Some 0); AHost 0 1; ADeliver 0 None]) 1 = false
+  /\ o_phase (get_op s 0) = OGone
+  /\ t_map (get_task s 1) = [(1, 0)]
+  /\ w_err s = None.
+Proof. vm_compute. repeat split. Qed.
